@@ -123,7 +123,9 @@ def child_main(spec):
             if last:
                 state["armed"] = True
             try:
-                if s.startswith("EM:"):
+                if s.startswith("CALL:"):
+                    getattr(conn, s[5:])()  # conn.commit() / conn.rollback(): not through the session's cursor
+                elif s.startswith("EM:"):
                     sql_, rows_ = s[3:].split("|", 1)
                     cur.executemany(sql_, [tuple(r) for r in json.loads(rows_)])
                 else:
